@@ -24,7 +24,10 @@ type (
 	SL []SX
 )
 
-func (b B) write(sb *strings.Builder) { sb.WriteByte('x'); sb.WriteString(hex.EncodeToString([]byte(b))) }
+func (b B) write(sb *strings.Builder) {
+	sb.WriteByte('x')
+	sb.WriteString(hex.EncodeToString([]byte(b)))
+}
 func (i I) write(sb *strings.Builder) { sb.WriteString(strconv.Itoa(int(i))) }
 func (y Y) write(sb *strings.Builder) { sb.WriteString(string(y)) }
 func (l SL) write(sb *strings.Builder) {
@@ -38,9 +41,14 @@ func (l SL) write(sb *strings.Builder) {
 	sb.WriteByte(')')
 }
 
-func L(xs ...SX) SL          { return SL(xs) }
-func KV(k string, v SX) SL   { return SL{Y(k), v} }
-func Bool(b bool) I          { if b { return 1 }; return 0 }
+func L(xs ...SX) SL        { return SL(xs) }
+func KV(k string, v SX) SL { return SL{Y(k), v} }
+func Bool(b bool) I {
+	if b {
+		return 1
+	}
+	return 0
+}
 func BL(ss []string) SL {
 	l := make(SL, len(ss))
 	for i, s := range ss {
@@ -144,7 +152,7 @@ func (o *Out) close(metaPath string) {
 // deterministic helpers over one PRNG
 type R struct{ *rand.Rand }
 
-func (r R) pick(ss []string) string { return ss[r.Intn(len(ss))] }
+func (r R) pick(ss []string) string  { return ss[r.Intn(len(ss))] }
 func (r R) chance(num, den int) bool { return r.Intn(den) < num }
 func (r R) perm(ss []string) []string {
 	out := append([]string(nil), ss...)
